@@ -5,7 +5,7 @@ cpu_percent()/cpu_times_percent() in blocking and non-blocking, system-wide and 
 Process.cpu_percent over (dproc, dwall) grids and blocking/non-blocking call sequences."""
 import itertools
 
-from vf.harness import use_world, outcome, freeze, sample
+from vf.harness import use_world, outcome, freeze, sample, guarded
 from vf.simk.world import World, CLK_TCK
 
 ID = "C07"
@@ -219,7 +219,7 @@ def worker(chunk):
     w = mk_world(seed)
     use_world(w)
     w.logging = False
-    return [run_case(c, w) for c in cases]
+    return [guarded(run_case, c, w) for c in cases]
 
 
 def build_cases(thorough):
@@ -310,5 +310,5 @@ def replay(ctx, case):
     c = list(case)
     if c[0] == "proc":
         c[1] = [tuple(x) for x in c[1]]
-    bad = run_case(tuple(c), w)
+    bad = guarded(run_case, tuple(c), w)
     return {"violated": bool(bad), "viols": bad}
